@@ -15,8 +15,10 @@ import (
 	"fmt"
 	"math/rand"
 	"regexp"
+	"runtime/debug"
 	"strconv"
 	"strings"
+	"time"
 	"unsafe"
 
 	"github.com/gopacket/gopacket"
@@ -203,7 +205,39 @@ type pcRun struct {
 
 var pcCur *pcRun
 
+// pcHung is set once a case did not come back: a decoding or accessor loop that never ends
+// (the goroutine cannot be killed); later cases are skipped so that the failure is reported
+// instead of a check that hangs.
+var pcHung bool
+
+const pcCaseTimeout = 30 * time.Second
+
+// pcGuard runs one case under a watchdog.
+func pcGuard(clause string, f func() Result) Result {
+	if pcHung {
+		return Result{Tags: []string{"skipped-after-timeout"}}
+	}
+	ch := make(chan Result, 1)
+	go func() {
+		defer func() {
+			if r := recover(); r != nil {
+				ch <- Result{Obs: []string{fmt.Sprintf("harness-panic=%q", fmt.Sprint(r))}, Oracle: []string{fmt.Sprintf("harness-panic\t%v", r)}}
+			}
+		}()
+		ch <- f()
+	}()
+	select {
+	case r := <-ch:
+		return r
+	case <-time.After(pcCaseTimeout):
+		pcHung = true
+		return Result{Obs: []string{"timeout"}, Oracle: []string{clause + "\tcase did not terminate within 30s (decoding or an accessor loop does not end)"}}
+	}
+}
+
 func init() {
+	// a runaway recursion of the code under test should die quickly, not after filling 1 GB
+	debug.SetMaxStack(256 << 20)
 	for _, id := range pcRegistered {
 		id := id
 		gopacket.RegisterLayerType(id, gopacket.LayerTypeMetadata{
@@ -1134,9 +1168,9 @@ func (g pcGen) genData(allowEmpty bool) []byte {
 	switch r := rng.Intn(40); {
 	case r == 0 && allowEmpty:
 		n = 0
-	case r == 1:
-		n = []int{1499, 1500, 1501}[rng.Intn(3)]
-	case r < 6:
+	case r == 1 || r == 2:
+		n = []int{1499, 1500, 1500, 1501}[rng.Intn(4)]
+	case r < 7:
 		n = 1
 	default:
 		n = 1 + rng.Intn(24)
